@@ -967,7 +967,8 @@ func (c *MapConverter) To(obj Object) (interface{}, error) {
 	keyType := reflect.TypeOf("")
 	mapType := reflect.MapOf(keyType, c.valueType)
 	gMap := reflect.MakeMapWithSize(mapType, tMap.Size())
-	for k, v := range tMap.items {
+	for _, k := range tMap.SortedKeys() {
+		v := tMap.items[k]
 		conv, err := c.valueConverter.To(v)
 		if err != nil {
 			return nil, err
@@ -980,7 +981,9 @@ func (c *MapConverter) To(obj Object) (interface{}, error) {
 func (c *MapConverter) From(obj interface{}) (Object, error) {
 	m := reflect.ValueOf(obj)
 	o := make(map[string]Object, m.Len())
-	for _, key := range m.MapKeys() {
+	keys := m.MapKeys()
+	sort.Slice(keys, func(i, j int) bool { return keys[i].String() < keys[j].String() })
+	for _, key := range keys {
 		v := m.MapIndex(key)
 		conv, err := c.valueConverter.From(v.Interface())
 		if err != nil {
@@ -1039,7 +1042,8 @@ func (c *StructConverter) To(obj Object) (interface{}, error) {
 		value := c.goType.New()
 		// Get the underlying struct so that we can set its fields.
 		structValue := value.Elem()
-		for k, value := range obj.items {
+		for _, k := range obj.SortedKeys() {
+			value := obj.items[k]
 			// If the struct has a field with the same name as a key, set it.
 			if f := structValue.FieldByName(k); f.CanSet() {
 				if attr, ok := c.goType.GetAttribute(k); ok {
